@@ -51,6 +51,8 @@ fn main() {
     }
     // silence the default panic message: panics are observations here
     if std::env::var("VMVERIF_PANICS").is_err() { std::panic::set_hook(Box::new(|_| {})); }
+    // short writes on regular files are produced with the file-size limit (streams.rs): exceeding it must be an error, not a signal
+    unsafe { libc::signal(libc::SIGXFSZ, libc::SIG_IGN) };
     let chk = overflow_checks_on();
     let mut rec = Rec::default();
     if args[1] == "replay" {
